@@ -5,7 +5,7 @@ Checks: patch applies to /repo HEAD; demo exits 0 on clean HEAD and non-zero wit
 import sys, os, subprocess, shutil, json, time
 V = os.path.dirname(os.path.dirname(os.path.abspath(__file__)))
 prop, n, src = sys.argv[1], sys.argv[2], sys.argv[3]
-sid = "%s-%s" % (prop, n)
+sid = "%s-%s" % (prop, sys.argv[4] if len(sys.argv) > 4 else n)
 wt = "/tmp/confirm_%s" % sid
 subprocess.call(["git", "-C", "/repo", "worktree", "remove", "--force", wt], stderr=subprocess.DEVNULL)
 subprocess.check_call(["git", "-C", "/repo", "worktree", "add", "-q", "--detach", wt, "HEAD"])
@@ -13,7 +13,7 @@ res = {}
 try:
     demo = os.path.join(src, "demo%s.py" % n); patch = os.path.join(src, "patch%s.diff" % n)
     # candidates were written in the author's own worktree (/tmp/mut_<prop>); point every such path at this confirmation worktree
-    txt = open(demo).read().replace("/tmp/mut_%s" % prop, wt)
+    txt = open(demo).read().replace("/tmp/mut2_%s" % prop, wt).replace("/tmp/mut_%s" % prop, wt)
     os.makedirs(os.path.join(wt, "_out"), exist_ok=True)      # same relative position as where the author ran it
     open(os.path.join(wt, "_out", "_demo.py"), "w").write("import sys; sys.path.insert(0, %r)\n" % wt + txt + "\nimport litedram as _l; assert _l.__file__.startswith(%r), _l.__file__\n" % wt)
     env = dict(os.environ, PYTHONPATH=wt)
@@ -31,7 +31,7 @@ try:
     if ok:
         d = os.path.join(V, "seeded", sid); os.makedirs(d, exist_ok=True)
         shutil.copy(patch, os.path.join(d, "patch.diff"))
-        open(os.path.join(d, "demo.py"), "w").write(open(demo).read().replace("/tmp/mut_%s" % prop, "/repo"))
+        open(os.path.join(d, "demo.py"), "w").write(open(demo).read().replace("/tmp/mut2_%s" % prop, "/repo").replace("/tmp/mut_%s" % prop, "/repo"))
         notes = os.path.join(src, "notes%s.md" % n)
         if os.path.exists(notes): shutil.copy(notes, os.path.join(d, "notes.md"))
         meta = dict(id=sid, property=prop, checks=[prop], origin="independent sub-agent given only the property text and a scratch worktree",
